@@ -80,13 +80,14 @@ theorem takeOutput_panic_iff (s : St) (size : Nat) : BV.Stream.takeOutput s size
     · intro hh; cases hh
 
 /-- for PROCESS / FLUSH / FINISH from a good state the modelled `compress_stream` moves each offset
-together with its counter: the hypothesis `CursorsAgree` of `ffi_cursor_exact` is a theorem here -/
-theorem cursorsAgree_of_stream {o : Oracle} {B fuel op : Nat} {s s' : St} {io' : Io} {r : Bool} {input : List Nat}
+together with its counter (kept for reference; `cursorsAgree_of_stream_all` below covers all four
+operations from any invariant-satisfying state) -/
+theorem cursorsAgree_of_stream {o : Oracle} {fuel op : Nat} {s s' : St} {io' : Io} {r : Bool} {input : List Nat}
     (c : StreamCall) (hop : op ≤ 2) (hG : Good s) (hlen : input.length = c.availIn)
-    (hw : s.inputPos + input.length < two64) (hB : OracleBounded o B)
+    (hw : s.inputPos + input.length < two64)
     (h : BV.Stream.compressStream o fuel s op input c.availOut = .ok (s', io', r)) :
     CursorsAgree c (ansOfStream c.availIn c.availOut (.ok (s', io', r))) := by
-  obtain ⟨q1, q2, _, _⟩ := call_good hop hG hw hB (Nat.le_refl _) h
+  obtain ⟨q1, q2, _, _⟩ := call_good hop hG hw h
   constructor
   · show c.availIn - io'.availIn + io'.availIn = c.availIn
     omega
